@@ -159,3 +159,110 @@ pub fn show_pt2(p: &Pt<Q2>) -> String {
         Pt::Aff(x, y) => format!("({}, {})", hex_q2(x), hex_q2(y)),
     }
 }
+
+// ---------------------------------------------------------------------------------------------
+// uniform access to the two real groups
+// ---------------------------------------------------------------------------------------------
+pub trait RealCurve: 'static + Sync + Send {
+    type K: RF;
+    type Proj: CurveProjective<Affine = Self::Aff, Scalar = Fr> + Sync + Send;
+    type Aff: CurveAffine<Projective = Self::Proj, Scalar = Fr> + Sync + Send;
+    const NAME: &'static str;
+    fn curve() -> Curve<Self::K>;
+    fn gen() -> Pt<Self::K>;
+    fn aff_of(p: &Pt<Self::K>) -> Self::Aff;
+    fn pt_of_aff(a: &Self::Aff) -> Pt<Self::K>;
+    fn rep(p: &Pt<Self::K>, l: &Self::K) -> Self::Proj;
+    fn raw(x: &Self::K, y: &Self::K, z: &Self::K) -> Self::Proj;
+    fn raw_of(p: &Self::Proj) -> (Self::K, Self::K, Self::K);
+    fn pt_of(p: &Self::Proj) -> Pt<Self::K> {
+        let (x, y, z) = Self::raw_of(p);
+        pt_of_jac(&x, &y, &z)
+    }
+    fn show(p: &Pt<Self::K>) -> String;
+    fn showk(k: &Self::K) -> String;
+    fn show_raw(p: &Self::Proj) -> String {
+        let (x, y, z) = Self::raw_of(p);
+        format!("[X={}, Y={}, Z={}]", Self::showk(&x), Self::showk(&y), Self::showk(&z))
+    }
+    /// Y^2 = X^3 + b Z^6 or Z = 0
+    fn raw_on_curve(p: &Self::Proj) -> bool {
+        let (x, y, z) = Self::raw_of(p);
+        if z.is_zero() {
+            return true;
+        }
+        let z2 = z.sq();
+        let z6 = z2.sq().mul(&z2);
+        y.sq() == x.sq().mul(&x).add(&Self::curve().b.mul(&z6))
+    }
+}
+pub struct RG1;
+pub struct RG2;
+impl RealCurve for RG1 {
+    type K = Q1;
+    type Proj = G1;
+    type Aff = G1Affine;
+    const NAME: &'static str = "G1";
+    fn curve() -> Curve<Q1> {
+        e1()
+    }
+    fn gen() -> Pt<Q1> {
+        g1_gen()
+    }
+    fn aff_of(p: &Pt<Q1>) -> G1Affine {
+        g1aff_of(p)
+    }
+    fn pt_of_aff(a: &G1Affine) -> Pt<Q1> {
+        pt_of_g1aff(a)
+    }
+    fn rep(p: &Pt<Q1>, l: &Q1) -> G1 {
+        g1_rep(p, l)
+    }
+    fn raw(x: &Q1, y: &Q1, z: &Q1) -> G1 {
+        unsafe { transmute::g1_projective(fq_of(x), fq_of(y), fq_of(z)) }
+    }
+    fn raw_of(p: &G1) -> (Q1, Q1, Q1) {
+        let (x, y, z) = p.as_tuple();
+        (q1_of(x), q1_of(y), q1_of(z))
+    }
+    fn show(p: &Pt<Q1>) -> String {
+        show_pt1(p)
+    }
+    fn showk(k: &Q1) -> String {
+        hex_q1(k)
+    }
+}
+impl RealCurve for RG2 {
+    type K = Q2;
+    type Proj = G2;
+    type Aff = G2Affine;
+    const NAME: &'static str = "G2";
+    fn curve() -> Curve<Q2> {
+        e2()
+    }
+    fn gen() -> Pt<Q2> {
+        g2_gen()
+    }
+    fn aff_of(p: &Pt<Q2>) -> G2Affine {
+        g2aff_of(p)
+    }
+    fn pt_of_aff(a: &G2Affine) -> Pt<Q2> {
+        pt_of_g2aff(a)
+    }
+    fn rep(p: &Pt<Q2>, l: &Q2) -> G2 {
+        g2_rep(p, l)
+    }
+    fn raw(x: &Q2, y: &Q2, z: &Q2) -> G2 {
+        unsafe { transmute::g2_projective(fq2_of(x), fq2_of(y), fq2_of(z)) }
+    }
+    fn raw_of(p: &G2) -> (Q2, Q2, Q2) {
+        let (x, y, z) = p.as_tuple();
+        (q2_of(x), q2_of(y), q2_of(z))
+    }
+    fn show(p: &Pt<Q2>) -> String {
+        show_pt2(p)
+    }
+    fn showk(k: &Q2) -> String {
+        hex_q2(k)
+    }
+}
